@@ -388,3 +388,14 @@ func HasUndeclaredEq(p *Prog, argv []string) bool {
 	}
 	return false
 }
+
+// AdmitsEither: the binding is admitted under the maximal-munch or under the regular-expression reading of option groups
+// (an implementation is free to be either)
+func AdmitsEither(p *Prog, argv []string, want map[*ArgDecl][]string, wantO map[*OptDecl][]string) (bool, bool) {
+	adm, uncl := Admits(p, BuildNFA(p, false), argv, want, wantO)
+	if adm {
+		return true, uncl
+	}
+	adm2, uncl2 := Admits(p, BuildNFA(p, true), argv, want, wantO)
+	return adm2, uncl || uncl2
+}
